@@ -313,3 +313,33 @@ def strip_docstring(body):
     if body and isinstance(body[0], ast.Expr) and isinstance(body[0].value, ast.Constant) and isinstance(body[0].value.value, str):
         return body[1:]
     return body
+
+
+def return_text(fn: ast.FunctionDef | None) -> str | None:
+    """text of the function's final return statement with single-assignment local names replaced by their defining
+    expressions (so `flag = True; return f(x, flag)` reads `return f(x, True)`); None when there is no function or the
+    body is not straight-line assignments followed by a return"""
+    if fn is None:
+        return None
+    body = strip_docstring(fn.body) if "strip_docstring" in globals() else fn.body
+    if not body or not isinstance(body[-1], ast.Return):
+        return unparse(body[-1]) if body else None
+    binds: dict = {}
+    for st in body[:-1]:
+        if isinstance(st, ast.Assign) and len(st.targets) == 1 and isinstance(st.targets[0], ast.Name):
+            nm = st.targets[0].id
+            binds[nm] = None if nm in binds else st.value
+        elif isinstance(st, (ast.Import, ast.ImportFrom, ast.Expr)):
+            continue
+        else:
+            return unparse(body[-1])
+    params = {a.arg for a in fn.args.args}
+
+    class Sub(ast.NodeTransformer):
+        def visit_Name(self, node):
+            v = binds.get(node.id)
+            if isinstance(node.ctx, ast.Load) and v is not None and node.id not in params:
+                return self.visit(ast.parse(unparse(v), mode="eval").body)
+            return node
+
+    return unparse(Sub().visit(ast.parse(unparse(body[-1])).body[0]))
